@@ -597,8 +597,87 @@ def run_twin(case):
     return out
 
 
+# --------------------------------------------------------------------------- same value, other representation / environment
+REPR_GEOMS = ["ts_3", "ti_01", "pt_mid", "bb_mid", "ls_diag", "poly_sq", "mp_two", "ml_two", "mpoly_two"]
+REPR_BUFFERS = [(2.0, 100.0), (1.0, 1.0), (0.0, 100.0), (2.0, 0.0), (0.5, 125.0)]
+REPRS = ["int", "np_int64", "np_uint16", "np_float32", "np_float64"]
+
+
+def as_repr(x, rep):
+    """x in the given representation, or None when the representation cannot hold the value exactly."""
+    if rep == "np_float64":
+        return np.float64(x)
+    if rep == "np_float32":
+        return np.float32(x) if float(np.float32(x)) == x else None
+    if x != int(x):
+        return None
+    return {"int": int, "np_int64": np.int64, "np_uint16": np.uint16}[rep](int(x))
+
+
+def same_geometry(a, b):
+    if a.type != b.type:
+        return False
+    fa, fb = np.asarray(_flat(raw(a.coordinates)), dtype=float), np.asarray(_flat(raw(b.coordinates)), dtype=float)
+    return fa.shape == fb.shape and bool(np.all(np.abs(fa - fb) <= 1e-9 * np.maximum(1.0, np.abs(fb))))
+
+
+def _flat(c):
+    if isinstance(c, list):
+        return [v for y in c for v in _flat(y)]
+    return [c]
+
+
+def run_repr(case):
+    """buffer_geometry with the two buffers handed over as int / numpy scalars gives what it gives for Python floats."""
+    out = Out(case)
+    gtype, coords = POOL_BY_ID[case["geom"]]
+    tb, fb = case["buffer"]
+    ref = call(mkgeom(gtype, coords), tb, fb)
+    out.transitions = 1
+    cls = {"kind": "representation", "rep": case["rep"], "type": gtype, "geom": "repr", "root": "repr", "depth": 0}
+    a, b = as_repr(tb, case["rep"]), as_repr(fb, case["rep"])
+    if a is None or b is None or ref[0] != "ok":
+        out.vac("same_value_other_representation")
+        out.klass = "repr:not_applicable"
+        return out
+    r = call(mkgeom(gtype, coords), a, b)
+    out.transitions = out.validated = 2
+    out.nontrivial = True
+    okay = r[0] == "ok" and same_geometry(r[1], ref[1])
+    out.expect("same_value_other_representation", okay, [r[0], r[1] if r[0] != "ok" else [r[1].type, raw(r[1].coordinates)]],
+               [ref[1].type, raw(ref[1].coordinates)], cls)
+    out.klass = "repr:%s" % ("same" if okay else "differs")
+    return out
+
+
+def run_strict(case):
+    """The same call with numpy floating-point errors raised and warnings turned into errors gives the same result: the
+    outcome must not depend on the error state / warning filters of the calling process."""
+    import warnings
+    out = Out(case)
+    gtype, coords = POOL_BY_ID[case["geom"]]
+    tb, fb = case["buffer"]
+    ref = call(mkgeom(gtype, coords), tb, fb)
+    with warnings.catch_warnings():
+        warnings.simplefilter("error")
+        with np.errstate(all="raise"):
+            r = call(mkgeom(gtype, coords), tb, fb)
+    out.transitions = out.validated = 2
+    out.nontrivial = True
+    cls = {"kind": "strict_environment", "type": gtype, "geom": "strict", "root": "strict", "depth": 0}
+    if ref[0] != "ok":
+        out.vac("same_result_in_strict_environment")  # failures of the plain call are judged by the pool blocks
+        out.klass = "strict:plain_call_failed"
+        return out
+    okay = r[0] == "ok" and same_geometry(r[1], ref[1])
+    out.expect("same_result_in_strict_environment", okay, [r[0], r[1] if r[0] != "ok" else raw(r[1].coordinates)], "as in the default environment", cls)
+    out.klass = "strict:%s" % ("same" if okay else "differs")
+    return out
+
+
 def blocks(tier):
-    return [{"root": pid, "tier": tier} for pid in POOL_IDS] + [{"root": "@twins", "tier": tier}]
+    return [{"root": pid, "tier": tier} for pid in POOL_IDS] + [{"root": "@twins", "tier": tier}, {"root": "@repr", "tier": tier},
+                                                                {"root": "@strict", "tier": tier}]
 
 
 def canon(g, last):
@@ -611,6 +690,18 @@ def run_block(block, rec):
     if root == "@twins":
         for case in twin_cases():
             rec.add(run_twin(case))
+        return
+    if root == "@repr":
+        for gid in REPR_GEOMS:
+            for b in REPR_BUFFERS:
+                for rep in REPRS:
+                    rec.add(run_repr({"repr": 1, "geom": gid, "buffer": list(b), "rep": rep}))
+        return
+    if root == "@strict":
+        for gid in POOL_IDS:
+            for tb in TB:
+                for fb in FB:
+                    rec.add(run_strict({"strict": 1, "geom": gid, "buffer": [tb, fb]}))
         return
     max_depth = DEPTH[block["tier"]]
     gtype, coords = POOL_BY_ID[root]
@@ -660,6 +751,10 @@ def rebuild(case):
 def replay_case(case):
     if "twin" in case:
         return run_twin(case)
+    if "repr" in case:
+        return run_repr(case)
+    if "strict" in case:
+        return run_strict(case)
     use_tier(case.get("tier"))
     if not case["chain"]:
         gtype, coords = POOL_BY_ID[case["geom"]]
